@@ -235,6 +235,35 @@ static void run_pump(const e1_cfg *base) {
     vf_sample("start: after Discover ; [Flood(1100 new observations) ; Query] x %d: retained bytes must stay <= 256 KiB + icon on every frame", Rr);
 }
 
+/* ------------------------------------------------------------------ C19 with several interfaces
+ * Three interfaces served by one responder; per interface: a fresh observation (at most 2 outstanding), Query,
+ * topology Reset, icon request, Discover.  The reference model knows exactly what may be retained
+ * (per interface seen: the record; its outstanding observations; its cached icon), and the ledger must agree
+ * after every frame - retained memory is a function of the state, not of the history. */
+#define NIF 3
+static struct { uint8_t seen[NIF], nodes[NIF], icon[NIF]; } MM;
+static const char *MNAME[5] = {"fresh observation", "Query", "Reset(tos0)", "QueryLargeTlv(icon)", "Discover"};
+static void mm_name(int ev, char *b, size_t cap) { snprintf(b, cap, "if%d: %s", ev / 5, MNAME[ev % 5]); }
+static int mm_enabled(int ev) { return ev % 5 != 0 || MM.nodes[ev / 5] < 2; }
+static void mm_root(void) { memset(&MM, 0, sizeof MM); }
+static void mm_apply(int ev) {
+    int i = ev / 5, k = ev % 5; uint8_t f[64]; const uint8_t *own = W.iface[i].mac;
+    vf_iface *fi = &W.iface[i]; memset(fi->recv, 0, fi->recv_prev_len);
+    switch (k) {
+        case 0: { uint8_t real[6], eth[6]; obs_addr(MM.nodes[i] + 10 * i, real, eth); fb_base(f, own, eth, 0, 0x04, own, real, 0); drv_linux_deliver(i, f, 32); MM.nodes[i]++; break; }
+        case 1: { pev q = ev_query(0, ST_M1, ST_M1, 7); drv_linux(&q, i); MM.nodes[i] = 0; break; }
+        case 2: { pev r = ev_reset(0, ST_M1); drv_linux(&r, i); MM.nodes[i] = 0; MM.icon[i] = 0; break; }
+        case 3: { pev q = ev_qlt(0, ST_M1, ST_M1, 5, 0x0E, 0); drv_linux(&q, i); MM.icon[i] = 1; break; }
+        case 4: { pev d = ev_discover(0, ST_M1, ST_M1, 0x1234, 1); drv_linux(&d, i); break; }
+    }
+    MM.seen[i] = 1;
+    uint32_t expect = 0; for (int j = 0; j < NIF; j++) expect += MM.seen[j] * base_blocks + MM.nodes[j] + MM.icon[j];
+    if (vf_live_blocks() != expect) {
+        char nm[64]; mm_name(ev, nm, sizeof nm);
+        vf_violation(vf_live_blocks() > expect ? "multi-interface:retention-exceeds-state" : "multi-interface:retained-state-lost", "after [%s]: %u blocks are allocated, the responder's state accounts for %u (per interface seen: the record, its outstanding observations, its cached icon)", nm, vf_live_blocks(), expect);
+    }
+}
+
 int main(int argc, char **argv) {
     const char *prop = "C07";
     for (int i = 1; i + 1 < argc; i++) if (!strcmp(argv[i], "--mode")) { if (!strncmp(argv[i + 1], "c19", 3)) prop = "C19"; if (!strcmp(argv[i + 1], "c02o")) prop = "C02"; }
@@ -247,6 +276,7 @@ int main(int argc, char **argv) {
     if (A.a > 0) klimit = (int)A.a;
     e1_cfg cfg = { .nev = E_NEV, .ev_name = ev_name, .apply = apply, .enabled = enabled, .root_setup = root_setup, .model = &M, .model_size = sizeof M,
                    .deadline_s = A.deadline, .max_depth = mode == 19 ? 1400 : 0, .prune_on_violation = 1, .on_new_state = getenv("VF_DBG") ? dbg_state : NULL };
+    if (!strcmp(A.mode, "c19multi")) cfg = (e1_cfg){ .nev = 5 * NIF, .ev_name = mm_name, .apply = mm_apply, .enabled = mm_enabled, .root_setup = mm_root, .model = &MM, .model_size = sizeof MM, .deadline_s = A.deadline, .prune_on_violation = 1 };
     pumpcfg = (e1_cfg){ .nev = 2000, .ev_name = pump_name, .apply = pump_apply, .root_setup = root_setup };
     if (A.replay) { A.verbose = 1; return e1_replay_file(pump ? &pumpcfg : &cfg, A.replay); }
     double t0 = vf_now_s();
